@@ -589,6 +589,19 @@ void _mi_error_message(int err, const char* fmt, ...) {
 #include <string.h> // strstr
 
 
+// does `s` equal one of the `;`-separated words in `words`?
+static bool mi_option_is_word(const char* words, const char* s) {
+  const size_t len = _mi_strlen(s);
+  if (len == 0) return false;
+  for (const char* w = words; *w != 0; ) {
+    const char* end = w;
+    while (*end != 0 && *end != ';') { end++; }
+    if ((size_t)(end - w) == len && strncmp(w, s, len) == 0) return true;
+    w = (*end == ';' ? end + 1 : end);
+  }
+  return false;
+}
+
 static void mi_option_init(mi_option_desc_t* desc) {
   // Read option value from the environment
   char s[64 + 1];
@@ -611,17 +624,18 @@ static void mi_option_init(mi_option_desc_t* desc) {
       buf[i] = _mi_toupper(s[i]);
     }
     buf[len] = 0;
-    if (buf[0] == 0 || strstr("1;TRUE;YES;ON", buf) != NULL) {
+    if (buf[0] == 0 || mi_option_is_word("1;TRUE;YES;ON", buf)) {
       desc->value = 1;
       desc->init = INITIALIZED;
     }
-    else if (strstr("0;FALSE;NO;OFF", buf) != NULL) {
+    else if (mi_option_is_word("0;FALSE;NO;OFF", buf)) {
       desc->value = 0;
       desc->init = INITIALIZED;
     }
     else {
       char* end = buf;
       long value = strtol(buf, &end, 10);
+      const bool has_digits = (end != buf);  // `strtol` consumed at least one digit
       if (mi_option_has_size_in_kib(desc->option)) {
         // this option is interpreted in KiB to prevent overflow of `long` for large allocations
         // (long is 32-bit on 64-bit windows, which allows for 4TiB max.)
@@ -637,7 +651,7 @@ static void mi_option_init(mi_option_desc_t* desc) {
         if (overflow || size > MI_MAX_ALLOC_SIZE) { size = (MI_MAX_ALLOC_SIZE / MI_KiB); }
         value = (size > LONG_MAX ? LONG_MAX : (long)size);
       }
-      if (*end == 0) {
+      if (*end == 0 && has_digits) {
         mi_option_set(desc->option, value);
       }
       else {
